@@ -29,6 +29,11 @@ impl Op {
 }
 
 fn scalar(r: &mut Rng) -> f64 {
+    if r.chance(0.08) {
+        // one or two ulps beside a "special" scalar: shortcuts keyed on s == 1, -1, 2 ... with a tolerance show here
+        let c = r.pick(&[1.0, -1.0, 2.0, 0.5, -2.0]);
+        return ulps(c, r.pick(&[-2i64, -1, 1, 2]));
+    }
     match r.below(10) {
         0 => 0.0,
         1 => -1.0,
@@ -273,7 +278,17 @@ macro_rules! real_full {
         }
         let alone_a: Vec<$t> = pw.segments.iter().map(|x| { let mut q = x.poly; q *= s; q }).collect();
         match guard(|| { let mut q = pw.clone(); q *= s; q }) {
-            Ok(res) => { check_real(m, "Piecewise", "mul_assign", &pw, &res, &alone_a); }
+            Ok(res) => {
+                check_real(m, "Piecewise", "mul_assign", &pw, &res, &alone_a);
+                // `*=` and `*` are the same scaling: (f *= s) must be bit-identical to f * s
+                m.count("mul_assign_vs_mul_compared");
+                if let Ok(byval) = guard(|| pw.clone() * s) {
+                    if !all_bits_eq(&pw_nums(&res), &pw_nums(&byval)) {
+                        m.violation("Piecewise *= differs from Piecewise * (same scalar)", || json!({"type": <$t as Nums>::NAME, "scalar": hx(s), "first_piece": hxs(&pw.segments[0].poly.nums()),
+                            "mul_assign": hxs(&res.segments[0].poly.nums()), "mul": hxs(&byval.segments[0].poly.nums())}));
+                    }
+                }
+            }
             Err(p) => m.panic("Piecewise mul_assign panic (real)", &p, || json!({"type": <$t as Nums>::NAME})),
         }
         let alone_n: Vec<$t> = pw.segments.iter().map(|x| -x.poly).collect();
@@ -399,7 +414,7 @@ pub fn canaries(m: &mut Mon) {
     m.canary(|m| check_rec(m, "canary", Op::Mul(2.0), &ends, &q.segments));
 }
 
-pub const FLOORS: &[&str] = &["value_level_checks", "rec_functions", "rec_single_piece", "real:Piecewise:mul:Poly3", "real:Piecewise:neg:IntOfLogPoly4", "real:Segment:mul_assign_ref:Poly8", "real:Piecewise:mul_assign:Log<Poly4>"];
+pub const FLOORS: &[&str] = &["mul_assign_vs_mul_compared", "value_level_checks", "rec_functions", "rec_single_piece", "real:Piecewise:mul:Poly3", "real:Piecewise:neg:IntOfLogPoly4", "real:Segment:mul_assign_ref:Poly8", "real:Piecewise:mul_assign:Log<Poly4>"];
 
 pub fn run(a: &Args, m: &mut Mon) {
     m.floors(FLOORS);
